@@ -84,7 +84,7 @@ def run(chk: Check) -> None:
     ad = prog.func('workchains.Waiting._awaitable_done')
     acfg = cfg_of(ad)
     af = chk.ctx.facts.analyse(ad)
-    wake = [n for n in acfg.nodes if any(last_name(c) == 'set_result' and norm(c.func.value) == 'self._waiting_future' for c in _calls(n))]
+    wake = [n for n in acfg.nodes if any(last_name(c) == 'set_result' and af.canon.key(c.func.value) == 'self._waiting_future' for c in _calls(n))]
     chk.ob('DOM-barrier-guard', ad, len(wake) == 1, 'the wake-up is performed at one site', kind='single-wake-site')
     pops = [n for n in acfg.nodes if any(norm(c.func) == 'self._awaiting.pop' for c in _calls(n))]
     ok = bool(wake) and all(('F', 'self._awaiting') in af.at(w) for w in wake) and bool(pops) and all(acfg.must_pass(acfg.entry, [w], lambda m: m in pops, edge_ok=no_exc) for w in wake)
@@ -93,7 +93,7 @@ def run(chk: Check) -> None:
     ctxw = [n for n in acfg.nodes if n.kind == 'stmt' and isinstance(n.ast, ast.Assign) and isinstance(n.ast.targets[0], ast.Subscript) and norm(n.ast.targets[0].value).endswith('.ctx')]
     ok = len(ctxw) == 1 and all(acfg.must_pass(acfg.entry, [w], lambda m: m in ctxw, edge_ok=no_exc) or acfg.must_pass(w, [acfg.exit], lambda m: m in ctxw, edge_ok=no_exc) for w in wake)
     chk.ob('DOM-barrier-guard', ad, ok, 'the result is stored in the context on every path that can wake the step', kind='context-before-or-with-wake')
-    fails = [n for n in acfg.nodes if any(last_name(c) == 'set_exception' and norm(c.func.value) == 'self._waiting_future' for c in _calls(n))]
+    fails = [n for n in acfg.nodes if any(last_name(c) == 'set_exception' and af.canon.key(c.func.value) == 'self._waiting_future' for c in _calls(n))]
     ok = False
     for h in [h for t in ast.walk(ad.node) if isinstance(t, ast.Try) for h in t.handlers]:
         if h.type is not None and norm(h.type) in ('Exception', 'BaseException') and h.name:
